@@ -830,6 +830,7 @@ func (e *Engine) newCtx(k *Contract, fi *funcInfo) *Ctx {
 	if fi != nil {
 		c.pkg, c.fn, c.decl = fi.pkg, fi.fn, fi.decl
 	}
+	c.useStr()
 	c.checkPanics = k.Panics == "never"
 	c.panicTags = k.PanicTags
 	c.checkOvf = k.Ovf
